@@ -557,6 +557,8 @@ impl ReadableDatabase for Database {
         let guard = TransactionGuard::allocate_read(self.transaction_tracker.clone(), &self.mem)?;
         #[cfg(feature = "logging")]
         debug!("Beginning read transaction id={:?}", guard.id());
+        #[cfg(redb_verif)]
+        crate::verif::point("begin_read.after_register", &[("id", guard.id().raw_id())]);
         ReadTransaction::new(self.get_memory(), guard)
     }
 
